@@ -1103,3 +1103,201 @@ def c18(tier):
 
 
 PLANS.update({"C16": c16, "C18": c18})
+
+
+# ------------------------------------------------------------------------------------------
+ENTRIES = ["to_svg", "pretty", "compressed", "settings", "override"]
+
+
+def hostile_inputs(r, n):
+    out = ["", " ", "\n", "\n\n\n", "\t", "\r\n", "\r", '"', '""', '"""', '\\"', '"\\', "{", "}", "{}", "{a", "a}", "{a,}",
+           "# Legend:", "# Legend:\n", "# Legend:\na", "# Legend:\na = ", "# Legend:\na = {", "# Legend:\n= {x}", "x # Legend:\na={b}",
+           "\x00", "a\x00b", "​", "é", "\U0001F600", "﻿", "一" * 50, "(" * 40, ")" * 40, "\\" * 30, "/" * 30,
+           "+" * 60, ("+" * 30 + "\n") * 20, ("|" * 30 + "\n") * 20, (".'" * 20 + "\n") * 10, "o" * 50, "*" * 50, "#" * 50,
+           "_" * 80, "=" * 80, "<" * 40 + ">" * 40, "^\n" * 30, "v\n" * 30, "V" * 30]
+    chunks = gen.bundled_chunks()
+    pool = gen.FULL + gen.LABELS + gen.WIDE + gen.LATIN + "\"{}\\#=:, \t" + "​́\x01\x7f￾" + "\U0001F600\U00020000"
+    for i in range(n):
+        kind = i % 7
+        if kind == 0:
+            out.append(gen.random_grid(r, r.randint(1, 30), r.randint(1, 12), gen.FULL, r.choice([0.5, 0.9, 1.0])))
+        elif kind == 1:
+            out.append(gen.random_grid(r, r.randint(1, 20), r.randint(1, 8), pool, r.choice([0.3, 0.7, 1.0])))
+        elif kind == 2:
+            t = list(r.choice(chunks))
+            for _ in range(r.randint(1, 6)):
+                if t:
+                    j = r.randrange(len(t))
+                    op = r.random()
+                    if op < 0.4:
+                        t[j] = r.choice(pool)
+                    elif op < 0.7:
+                        del t[j]
+                    else:
+                        t.insert(j, r.choice(pool + "\n\n"))
+            out.append("".join(t))
+        elif kind == 3:
+            out.append(gen.random_grid(r, r.randint(1, 20), r.randint(1, 4), "\"ab-|\\ ", 0.7))
+        elif kind == 4:
+            frag = r.choice(["# Legend:", "a = {", "}", "= {x}", "a={b}\n", "# Legend:\n", "{a}", "\r\n"])
+            out.append(gen.random_grid(r, 8, 2, "-|+ab ", 0.5) + "\n" + "".join(r.choice([frag, r.choice(pool), "\n"]) for _ in range(r.randint(1, 12))))
+        elif kind == 5:
+            out.append("".join(chr(r.choice([r.randrange(0x20, 0x7f), r.randrange(0xa0, 0x3000), r.randrange(0x3000, 0xd7ff),
+                                             r.randrange(0xe000, 0xfffe), r.randrange(0x10000, 0x110000), 10, 32, 32]))
+                               for _ in range(r.randint(1, 200))))
+        else:
+            out.append(gen.random_grid(r, r.randint(20, 60), r.randint(10, 25), "-|+.'/\\ ", r.choice([0.6, 0.95])))
+    return gen.dedup(out)
+
+
+def c01(tier):
+    run = Run("C01", tier, level="exploration")
+    n = 1200 if tier == "quick" else 60000
+    run.rule = ("model: termination of the pipeline model under weak fairness, no stuck state, guards of the failure "
+                "sites, on all small grids (TLC liveness check); code: every input of the hostile corpus (empty, "
+                "whitespace, dense random grids over the full vocabulary, mutated bundled diagrams, unbalanced quotes, "
+                "legend fragments, arbitrary Unicode scalars incl. zero-width/control/non-BMP, deep nesting and long "
+                "runs) goes through each of the five entry points in crash-isolated child processes with scale from "
+                "{1e-30, 0.5, 8, 37.5, 1e30}; the trace specification accepts only outcome Return (a panic, abort, stack "
+                "overflow or a run beyond L(n) = 10 s + 2 s (n/1000)^2 is a violation) and requires that no greedy pass "
+                "grew its list (hook counters). non-trivial = non-empty input; distinct by (input, entry, scale)")
+    r = common.rng("C01")
+    path = os.path.join(common.rundir(), "MC_C01.cfg")
+    with open(path, "w") as f:
+        f.write("CONSTANTS\n  W = 3\n  H = 2\n  Alphabet = %s\nSPECIFICATION Spec\nPROPERTY Termination\n"
+                "INVARIANTS NoStuckState SpansNonEmpty GuardsHold PassBound\nCHECK_DEADLOCK FALSE\n" % tla_set([32, 45, 124, 43, 46, 39] if tier == "thorough" else [32, 45, 124, 43, 46]))
+    run.model("MC_Term", path)
+    texts = hostile_inputs(r, n)
+    big = []
+    if tier == "thorough":
+        big = [gen.random_grid(r, 200, 100, "-|+.' ", 0.9), "-" * 20000, ("|\n" * 5000), gen.diagonal(400),
+               "\n".join(" " * i + "+" + "-" * (2 * (300 - i)) + "+" for i in range(0, 300))]
+    else:
+        big = [gen.random_grid(r, 80, 40, "-|+.' ", 0.9), "-" * 4000, gen.diagonal(150),
+               "\n".join(" " * i + "+" + "-" * (2 * (60 - i)) + "+" for i in range(0, 60))]
+    texts += big
+    cases = []
+    scales = [1e-30, 0.5, 8.0, 37.5, 1e30]
+    for i, t in enumerate(texts):
+        ents = ENTRIES if tier == "thorough" or i < 80 else [ENTRIES[i % 5], ENTRIES[(i // 5 + 2) % 5]]
+        for e in ents:
+            c = {"input": t, "entry": e}
+            if e in ("settings", "override"):
+                c["settings"] = {"scale": r.choice(scales), "include_styles": r.random() < 0.5}
+            if e == "override":
+                c["w"], c["h"] = r.choice([0.0, 1.0, 1e9]), r.choice([0.0, 7.5, 1e9])
+            cases.append(c)
+    obs = observe.observe(cases, tag="C01B")
+    sizes = {}
+    for c, o in zip(cases, obs):
+        doc = {"wf": o["doc"].get("wf", 0)}
+        run.add_event({"props": ["C01"], "out": o["out"], "doc": doc, "work": o["work"] or [0, 0, 0, 0, 0],
+                       "nchars": len(c["input"])},
+                      {"input": c["input"], "entry": c["entry"], "settings": c.get("settings"), "outcome": o["out"],
+                       "panic": o.get("panic")})
+        sizes.setdefault(len(c["input"]) // 1000, []).append(o["us"])
+    run.notes["max_us_by_kchars"] = {str(k): max(v) for k, v in sorted(sizes.items())}
+    run.samples += [{"input": texts[60][:120], "entries": ENTRIES}, {"input_len": len(big[0]), "kind": "dense 80x40 grid"}]
+    run.validate(shard=4000)
+    run.assumptions = std_assumptions() + ["the time envelope L(n) is >= 100x what the pinned tree needs at the sizes used"]
+    return run.finish()
+
+
+PLANS.update({"C01": c01})
+
+
+# ------------------------------------------------------------------------------------------
+def c07(tier):
+    from concurrent.futures import ThreadPoolExecutor
+    run = Run("C07", tier)
+    ninputs = 150 if tier == "quick" else 1500
+    nprocs = 8 if tier == "quick" else 32
+    thread_counts = [1, 2, 4, 8, 16] if tier == "quick" else list(range(1, 17))
+    run.rule = ("model: Service.tla with %s threads x 2 calls and the real table dependency graph, all interleavings: "
+                "once-only initialisation, dependency order, no re-entrancy, determinism of results, no deadlock, every "
+                "call returns (TLC, liveness); code: %d fresh processes (independent hash seeds) each converting the "
+                "same corpus (x 3 settings) in a different order and then again (warm, after arbitrary other inputs); "
+                "fresh processes with %s threads released from one barrier so that the first, table-initialising calls "
+                "race, each thread starting at a different position; ServiceTrace infers canon[key] from the first "
+                "observation and requires every later SHA-256 to equal it, and validates the lazy-init log against the "
+                "table state machine. non-trivial = an observation of a key that was already observed elsewhere"
+                % ("2" if tier == "quick" else "3", nprocs, thread_counts))
+    r = common.rng("C07")
+    path = os.path.join(common.rundir(), "MC_C07.cfg")
+    with open(path, "w") as f:
+        f.write("CONSTANTS\n  Threads = {%s}\n  Inputs = {1, 2}\n  MaxCalls = %d\nSPECIFICATION Spec\nPROPERTY EveryCallReturns\n"
+                "INVARIANTS OnceOnly DepOrder OneOwner NoReentrancy Deterministic NoDeadlock\nCHECK_DEADLOCK FALSE\n"
+                % (("t1, t2" if tier == "quick" else "t1, t2, t3"), 2 if tier == "quick" else 1))
+    run.model("Service", path, timeout=3000)
+    corpus = [t for t in gen.mixed_corpus(r, ninputs)] + [b for _, b in gen.bundled_files()][:6]
+    corpus += [gen.box(6, 1, "round", "{a}") + "\n# Legend:\na = {fill:red}", '"quoted" text 一二']
+    sets = [None, {"scale": 3.0}, {"include_styles": False, "font_family": "x"}]
+    reqs = []
+    for i, t in enumerate(corpus):
+        s = sets[i % 3]
+        rq = {"id": i, "input": t, "entry": "settings" if s else ["to_svg", "compressed"][i % 2]}
+        if s:
+            rq["settings"] = s
+        reqs.append(rq)
+    keyof = {rq["id"]: "%d|%s|%d" % (rq["id"], rq["entry"], rq["id"] % 3) for rq in reqs}
+    events = []
+    meta = []
+
+    def sha(resp):
+        if not resp.get("ok"):
+            return "PANIC:" + str(resp.get("panic"))[:80]
+        return _hashlib.sha256(resp["svg"].encode("utf-8", "surrogatepass")).hexdigest()
+
+    def one_proc(p):
+        rr = common.rng("C07/proc/%d" % p)
+        order = list(reqs)
+        rr.shuffle(order)
+        second = list(reqs)
+        rr.shuffle(second)
+        second = second[:len(second) // 2]
+        return p, common.run_batch_process(order + second, tag="C07p%d" % p)
+    with ThreadPoolExecutor(max_workers=min(common.NCPU, nprocs)) as ex:
+        for p, resps in ex.map(one_proc, range(1, nprocs + 1)):
+            for k, resp in enumerate(resps):
+                events.append({"ev": "ret", "proc": p, "thread": 0, "key": keyof[resp["id"]], "sha": sha(resp)})
+                meta.append({"input": reqs[resp["id"]]["input"], "entry": reqs[resp["id"]]["entry"],
+                             "settings": reqs[resp["id"]].get("settings"), "proc": p, "position": k})
+    lazy_total = 0
+    for j, nth in enumerate(thread_counts):
+        p = 100 + j
+        calls, lazy = common.run_threads(nth, reqs[:max(20, len(reqs) // 4)], tag="C07t%d" % nth)
+        # lazy events are ordered by their process-wide sequence number; calls per thread by seq
+        for lz in sorted(lazy, key=lambda x: x["seq"]):
+            events.append({"ev": "lazy", "proc": p, "thread": lz["thread"], "table": lz["table"], "phase": lz["phase"]})
+            meta.append({"proc": p, "lazy": lz})
+            lazy_total += 1
+        for c in calls:
+            resp = c["resp"]
+            events.append({"ev": "ret", "proc": p, "thread": c["thread"], "key": keyof[resp["id"]], "sha": sha(resp)})
+            meta.append({"input": reqs[resp["id"]]["input"], "entry": reqs[resp["id"]]["entry"],
+                         "settings": reqs[resp["id"]].get("settings"), "proc": p, "thread": c["thread"], "position": c["seq"]})
+    run.notes["lazy_events"] = lazy_total
+    run.notes["processes"] = nprocs + len(thread_counts)
+    drift_before = run.drift
+
+    def classify(preds):
+        out = []
+        for pr in sorted(preds):
+            if pr == "C07":
+                out.append((pr, None))
+            else:
+                run.drift += 1      # mechanism-level: lazy-init protocol differs from Service.tla
+                if len(run.drift_samples) < 5:
+                    run.drift_samples.append({"predicate": pr})
+        return out
+    run.classify = classify
+    for ev, m in zip(events, meta):
+        run.add_event(ev, m)
+    run.samples.append({"key": events[0]["key"], "sha": events[0]["sha"], "proc": 1})
+    run.validate(module="ServiceTrace", cfg="ServiceTrace.cfg", shard=10 ** 9)
+    run.assumptions = std_assumptions() + ["SHA-256 equality stands for byte equality",
+                                           "thread races are observed, not enumerated: 16 threads from one barrier on 16 cores"]
+    return run.finish()
+
+
+PLANS.update({"C07": c07})
